@@ -226,6 +226,38 @@ theorem cons_bufwriter_c03_total_length (comp : Nat → List Nat → List Nat) (
     simp only [bufwriterChunks, List.flatten_cons, List.length_append]
     omega
 
+/-- **`BlockOffsets` are file positions for ANY buffer capacity** (the statement mutant C08-m11 violates).  The buffer
+capacity `C` of the `bytespool.Writer` is UNIVERSALLY QUANTIFIED (every `C ≥ 1`; the theorem in fact holds for `C = 0`
+too), as are the downstream behaviour (`oracle`: how the file answers each call, hence every way the buffer's
+fill / flush / direct-write rule SPLITS AND MERGES the block writes into downstream calls), the compression function,
+the block size and the documents.  Whenever `writeSortedDocs` (C03) returned a writer state `w` and the buffered run
+over its blocks reported no error: for every block `k`, the offset C03 recorded for it (`w.file[k].1`, Go
+`BlockOffsets[k]`) is the byte position in the file at which exactly the bytes of block `k` stand; and the offsets are
+the running sums of the block lengths, the last one ending at `currentBlockOffset` = the file size. -/
+theorem cons_bufwriter_blockOffsets_any_capacity (comp : Nat → List Nat → List Nat) (mbs : Nat)
+    (oldRead : C03.ID → Option C03.DocB) (sortedIDs : List C03.ID) (w : C03.DW)
+    (hw : C03.writeSortedDocs (fun i p => (comp i p).length) mbs oldRead sortedIDs = some w) :
+    ∀ C : Nat, 1 ≤ C → ∀ oracle : List (Option Nat),
+      (∀ r ∈ (BufWriter.exec C (bufwriterCmds comp w.file) { oracle := oracle }).1, r = true) →
+      (∀ (k : Nat) (x : Nat × List Nat), w.file[k]? = some x →
+        (((BufWriter.exec C (bufwriterCmds comp w.file) { oracle := oracle }).2.out.drop x.1).take (comp k x.2).length)
+          = comp k x.2) ∧
+      (BufWriter.exec C (bufwriterCmds comp w.file) { oracle := oracle }).2.out.length = w.currentBlockOffset ∧
+      (BufWriter.exec C (bufwriterCmds comp w.file) { oracle := oracle }).2.buf = [] := by
+  intro C _ oracle hok
+  refine ⟨fun k x hx => cons_bufwriter_c03_block_at_offset C comp mbs oldRead sortedIDs w hw oracle hok k x hx, ?_, ?_⟩
+  · rw [cons_bufwriter_output_eq_unbuffered C comp w.file oracle hok]
+    have hinv := cons_bufwriter_c03_writeSortedDocs_laidOut comp mbs oldRead sortedIDs w hw
+    have := cons_bufwriter_c03_total_length comp w.file 0 0 _ hinv.2
+    omega
+  · exact BufWriter.exec_flush_ok C _ _ hok
+
+/-- non-vacuity, and the split really varies with the capacity: the same two blocks through capacities 1, 4 and 100 -/
+example : (∀ r ∈ (BufWriter.exec 1 (bufwriterCmds (fun _ p => p) [(0, [1, 2, 3]), (3, [4, 5, 6, 7, 8])]) {}).1, r = true) ∧
+    (∀ r ∈ (BufWriter.exec 100 (bufwriterCmds (fun _ p => p) [(0, [1, 2, 3]), (3, [4, 5, 6, 7, 8])]) {}).1, r = true) ∧
+    (BufWriter.exec 4 (bufwriterCmds (fun _ p => p) [(0, [1, 2, 3]), (3, [4, 5, 6, 7, 8])]) {}).2.out = [1, 2, 3, 4, 5, 6, 7, 8] := by
+  decide
+
 /-! ## (3) the downstream calls vs C08's `sdocsWrites` -/
 
 /-- BufWriter oracle answer -> SealOps answer (`true` = the `Write` call succeeded) -/
